@@ -23,7 +23,7 @@ JOBS['C16'] = [
      'defs': {'quick': {'N': 5}, 'thorough': {'N': 7}}, 'nslices': {'quick': 16, 'thorough': 32}, 'split_depth': 5},
     # the regex engine's private decoders and its stepping over the line: bracket patterns with multi-byte members
     {'name': 'regex_offsets_utf8', 'harness': 'c10_re.c', 'units': ['rset', 'regex', 'sbuf', 'uc'], 'track': 're_rec',
-     'defs': {'quick': {'LL': 2, 'TSET': 1}, 'thorough': {'LL': 3, 'TSET': 1, 'WIDE': 1}},
+     'defs': {'quick': {'LL': 2, 'TSET': 1, 'MB': 1}, 'thorough': {'LL': 3, 'TSET': 1, 'MB': 1}},
      'expect_reach': ['end', 'found', 'notfound', 'agree'], 'timeout': {'quick': 280, 'thorough': 1700}, 'max_steps': 5000000},
 ]
 
@@ -45,7 +45,7 @@ JOBS['C12'] = [
 
 # ---------------------------------------------------------------- C11
 META['C11'] = {
-    'bounds': {'quick': 'all pattern strings <=3 bytes over the 23-character metacharacter alphabet x icase/notbol/noteol x 6 lines (ASCII, 2- and 3-byte characters), via rstr_make and regcomp; repetition templates with M,N in {0..9,63..65,126..130,256,999}; 1..3,30..34,61..67,100 nested/consecutive groups',
+    'bounds': {'quick': 'all pattern strings <=3 bytes over the 23-character metacharacter alphabet x icase/notbol/noteol x 6 lines (ASCII, 2-, 3- and 4-byte characters), via rstr_make and regcomp; repetition templates with M,N in {0..9,63..65,126..130,256,999}; 1..3,30..34,61..67,100 nested/consecutive groups',
                'thorough': 'all strings <=4 bytes over the alphabet, and all strings <=3 bytes with one position free over 1..255; repetition templates with all M,N in 0..140'},
     'outside': 'patterns longer than 4 bytes outside the repetition/group templates; lines outside the family',
     'assumptions': ['the engine checks every load/store against object bounds: "fits the memory reserved" is decided on the real regcomp/rnode_emit code'],
@@ -162,6 +162,9 @@ META['C10'] = {
 JOBS['C10'] = [
     {'name': 'templates', 'harness': 'c10_re.c', 'units': ['rset', 'regex', 'sbuf', 'uc'], 'track': 're_rec',
      'defs': {'quick': {'LL': 2}, 'thorough': {'LL': 3, 'WIDE': 1}}, 'variants': [{'TSET': i} for i in range(5)],
+     'expect_reach': ['end', 'found', 'notfound', 'agree'], 'timeout': {'quick': 280, 'thorough': 1700}, 'max_steps': 5000000},
+    {'name': 'multibyte', 'harness': 'c10_re.c', 'units': ['rset', 'regex', 'sbuf', 'uc'], 'track': 're_rec',
+     'defs': {'quick': {'LL': 2, 'MB': 1}, 'thorough': {'LL': 3, 'MB': 1}}, 'variants': [{'TSET': 0}, {'TSET': 1}, {'TSET': 2}],
      'expect_reach': ['end', 'found', 'notfound', 'agree'], 'timeout': {'quick': 280, 'thorough': 1700}, 'max_steps': 5000000},
     {'name': 'open_bounds', 'harness': 'c10_re.c', 'units': ['rset', 'regex', 'sbuf', 'uc'], 'track': 're_rec',
      'defs': {'quick': {'LL': 3, 'TSET': 6}, 'thorough': {'LL': 4, 'TSET': 6}},
@@ -325,6 +328,8 @@ JOBS['C09'] = [
     {'name': 'push_queue', 'harness': 'c09_push.c', 'units': ['term', 'sbuf'], 'defs': {}, 'expect_reach': ['end', 'overflow-checked']},
     {'name': 'repeat_vs_retype', 'harness': 'c09_rel.c', 'units': 'ALL', 'defs': {'quick': {'MODE': 0}, 'thorough': {'MODE': 0, 'NCNT': 3, 'TXTN': 2, 'JUNKALL': 1}}, 'expect_reach': ['end'],
      'timeout': {'quick': 280, 'thorough': 1700}, 'max_steps': 80000000, 'validate': {'quick': 6, 'thorough': 12}},
+    {'name': 'repeat_long_insert', 'harness': 'c09_rel.c', 'units': 'ALL', 'defs': {'MODE': 2}, 'expect_reach': ['end'],
+     'timeout': {'quick': 280, 'thorough': 1700}, 'max_steps': 400000000, 'validate': {'quick': 2, 'thorough': 4}, 'native_timeout': 60},
     {'name': 'execute_vs_type', 'harness': 'c09_rel.c', 'units': 'ALL', 'defs': {'MODE': 1}, 'expect_reach': ['end'],
      'timeout': {'quick': 280, 'thorough': 1700}, 'max_steps': 80000000, 'validate': {'quick': 6, 'thorough': 12}},
 ]
